@@ -165,6 +165,7 @@ def gen_docs(rng, space, n, first=True):
             docs.append(G.wellformed(rng, named_refs=(rng.random() < 0.25)))
         if first:      # on top: one article linked twice, label x label x place (small documents)
             docs.extend(G.reflink_sweep())
+            docs.extend(G.ordinary_table_sweep())       # small table shape x caption richness x caption above / below
     return docs
 
 
@@ -689,9 +690,13 @@ def check(run):
     run.rule = ("space 1: %d hand-written seeds + grammar-based adversarial wikitext (headings, lists, tables incl. nested/wide/"
                 "single-column, 55 html tags with style/class/id values that switch passes on, refs incl. named, galleries, math, "
                 "links, templates) followed by 0-4 random mutations, 10%% numeric-attribute documents (every numeric attribute x number "
-                "spelling), 5%% documents with 2..25 structurally equal offenders under one forbidden ancestor, plus the exhaustive sweep "
-                "attribute read by the source x number spelling; space 2: documents of a recursive grammar of ordinary content "
-                "(unique words, or one repeated fragment) incl. link-only section bodies, multi-block table cells, preformatted blocks; "
+                "spelling), 5%% documents with 2..25 structurally equal offenders under one forbidden ancestor, 4%% captioned tables (caption "
+                "of 0..16 inline nodes x the trigger of every table pass), 4%% one footnote name in 2..6 spellings (blanks around / inside "
+                "the quoted value, quoting style, case, Unicode look-alikes; definition / empty use / empty pair, any order), plus the "
+                "exhaustive sweeps attribute read by the source x number spelling, table trigger x caption, footnote name x spelling x "
+                "definition/use x order; space 2: documents of a recursive grammar of ordinary content "
+                "(unique words, or one repeated fragment) incl. link-only section bodies, multi-block table cells, preformatted blocks, "
+                "named footnotes whose name is spelled differently at definition and use, footnotes linking one article several times; "
                 "space 3: forbidden-nesting pairs / row-copying tables / adversarial documents with one fragment wrapped into 41..%d "
                 "nested tags (passes fail half-way with RecursionError; the tree is checked after the failed pass on the direct and on "
                 "the catch-all path). distinct = distinct wikitext; non-trivial = at least one cleaner pass changed the tree"
